@@ -395,6 +395,38 @@ def prime_prior_check(model, prop, label, errs):
         return 1
     n = len(pts)
     lpp, lj = lpp[:n], lj[:n]
+    # same support: points of the reparameterised space that map outside the prior box must have
+    # zero prime prior (probe just outside the image of each prior bound)
+    try:
+        with np.errstate(all="ignore"):
+            from nessai.livepoint import numpy_array_to_live_points
+
+            mid = 0.5 * (model.lower_bounds + model.upper_bounds)
+            angular = {p_ for r in prop._reparameterisation.values() if type(r).__name__ in ("Angle", "AnglePair", "ToCartesian") for p_ in r.parameters}
+            for j, nm in enumerate(model.names):
+                if nm in angular:
+                    continue  # a periodic image of an outside point is an inside point of the same prime coordinates
+                for end in (0, 1):
+                    for delta in (1e-6, 1e-3, 0.1):
+                        width = model.upper_bounds[j] - model.lower_bounds[j]
+                        p0 = mid.copy()
+                        p0[j] = model.lower_bounds[j] - delta * width if end == 0 else model.upper_bounds[j] + delta * width
+                        xo = numpy_array_to_live_points(np.array([p0, p0]), model.names)
+                        for rr in prop._reparameterisation.values():
+                            if hasattr(rr, "reset_inversion"):
+                                rr.reset_inversion()
+                        xpo, _ = prop.rescale(xo.copy(), test=False)
+                        val = np.zeros(len(xpo))
+                        for r in prop._reparameterisation.values():
+                            val = val + r.x_prime_log_prior(xpo)
+                        if np.any(np.isfinite(val[:2])):
+                            errs.append((f"prime-prior-support-differs:{label}", f"{nm} = {p0[j]!r} lies outside the prior box [{model.lower_bounds[j]}, {model.upper_bounds[j]}] but its image has prime log-prior {val[0]!r}"))
+                            raise StopIteration
+    except StopIteration:
+        return 1
+    except Exception as e:
+        errs.append((f"raises-{type(e).__name__}:{label}", f"{e} (prime prior support)"))
+        return 1
     fin_a, fin_b = np.isfinite(lpp), np.isfinite(lp)
     if np.any(fin_a != fin_b):
         errs.append((f"prime-prior-support-differs:{label}", f"{int(np.sum(fin_a != fin_b))} points"))
